@@ -19,7 +19,6 @@ from . import common as C
 
 PROP = "C13"
 PROPS_MODULES = ["AsyncFix.Props.C13"]
-FINDINGS_MODULE = "AsyncFix.Findings.C13"
 ASSUMPTIONS = [
     "CompIDs are Python str without lone surrogates, message arguments are bytes, FIXSession counters are ints, "
     "directions are MessageDirection members (other argument types are outside the model)",
@@ -695,7 +694,7 @@ def oracle_run(ops):
             break
     del j
     if half["seen"]:
-        # input class of the known finding: a set_seq_num whose effective next number is exactly 2**63
+        # input class of the former finding (fixed by 493a9a7): a set_seq_num whose effective next number is 2**63
         fails = [("C13-set-seq-num-overflow-half-applied", "set_seq_num raised OverflowError after changing the counters "
                   "and before deleting the messages: " + f[1], f[2]) for f in fails]
     return fails
